@@ -113,9 +113,17 @@ def value_like(rng, pd, cur, n):
     if isinstance(sample, np.ndarray) or isinstance(sample, list):
         ln = len(sample) if len(sample) else rng.randint(1, 4)
         same = rng.random() < .7
+        twod = isinstance(sample, np.ndarray) and rng.random() < .35  # e.g. pin x group tables; often handed over as views / Fortran order
         vals = []
         for _ in range(n):
             m = ln if same else rng.randint(1, 4)
+            if twod:
+                g = rng.randint(2, 4)
+                a = np.array([[rng.uniform(0, 100) for _ in range(g)] for _ in range(max(m, 2))])
+                how = rng.randrange(4)
+                a = [a, np.asfortranarray(a), np.ascontiguousarray(a.T).T, np.repeat(a, 2, axis=1)[:, ::2]][how]
+                vals.append(a)
+                continue
             v = [rng.uniform(0, 100) for _ in range(m)]
             vals.append(np.array(v) if isinstance(sample, np.ndarray) else v)
         return vals
@@ -142,8 +150,31 @@ def history(rec, rng, r, w):
     core = r.core
     nsteps = rng.randint(8, 25)
     for _ in range(nsteps):
-        op = rng.choice(["param", "param", "param", "param-subset", "ndens", "temperature", "rotate-block", "swap", "discharge", "free-coordinate", "core-param"])
+        op = rng.choice(["param", "param", "param", "param-subset", "ndens", "temperature", "rotate-block", "swap", "discharge", "free-coordinate", "core-param", "table-param"])
         try:
+            if op == "table-param":
+                # physics results stored per block as tables (pin x group fluxes, group vectors): per-block shapes differ, some blocks
+                # have none, and the arrays arrive as views / Fortran-ordered data of whatever produced them
+                import numpy as np
+
+                name = rng.choice(["pinMgFluxes", "pinMgFluxes", "mgFlux", "linPowByPin", "mgFluxGamma"])
+                blks = [b for b in r.core.getBlocks() if name in b.p]
+                if not blks:
+                    continue
+                ng = rng.randint(2, 5)
+                for b in blks:
+                    if rng.random() < .25:
+                        continue
+                    if name == "pinMgFluxes":
+                        a = np.array([[rng.uniform(0, 1e3) for _ in range(ng)] for _ in range(rng.randint(2, 5))])
+                        a = [a, np.asfortranarray(a), np.ascontiguousarray(a.T).T, np.repeat(a, 2, axis=1)[:, ::2]][rng.randrange(4)]
+                    else:
+                        a = np.array([rng.uniform(0, 1e3) for _ in range(rng.randint(1, 5))])
+                        if rng.random() < .5:
+                            a = np.repeat(a, 2)[::2]
+                    b.p[name] = a
+                hist.append("table-param:%s(%d blocks)" % (name, len(blks)))
+                continue
             if op in ("param", "param-subset", "core-param"):
                 cls = rng.choice([c for c in groups if c.__name__ in (("Core", "Reactor") if op == "core-param" else tuple(k.__name__ for k in groups))])
                 objs = groups[cls]
@@ -184,7 +215,10 @@ def history(rec, rng, r, w):
                     c.setTemperature(rng.uniform(300, 600))
                     c.getDimension(sorted(c.THERMAL_EXPANSION_DIMS)[0]) if c.THERMAL_EXPANSION_DIMS else None
                     c.parent.getVolume()
-                    [x.getVolume() for x in c.parent]
+                    if any(x.getVolume() < 0 or x.getArea() < 0 for x in c.parent):
+                        # e.g. a duct grown past the fixed outer pitch of the inter-assembly coolant: armi does not refuse it, but a
+                        # component of negative area is not a valid model state (and DerivedShape treats it inconsistently)
+                        raise ArithmeticError("negative component area")
                     hist.append("temperature")
                 except (RuntimeError, ValueError, ArithmeticError):
                     # no expansion law, or the expansion made components overlap (negative derived area): not a valid state
